@@ -55,12 +55,18 @@ PROPS = {
     "C09": dict(
         probes=["index", "slice"],
         explanation="at::exec and stdlib::len proved for all lengths and all i64 indices against Seq views (V) and on real "
-                    "Arc<Array>/Arc<str> values for small lengths (K, bounded); slicing delegates to the slyce crate whose "
-                    "contract (Python slice semantics) is checked bounded; Slicing::exec plumbing is covered by probes only",
+                    "Arc<Array>/Arc<str> values for small lengths (K, bounded); slicing: Slicing::exec proved on the verbatim "
+                    "body (V) to evaluate operand, start, stop, step in that order, to put each bound (converted by to_bound) "
+                    "into its slot and to return a sequence of the operand's kind made of exactly the elements the slyce crate "
+                    "selects; WHAT slyce selects (Python slice semantics) is an assumed contract on the dependency, checked "
+                    "bounded in K",
         assumptions=COMMON + [
             "str::chars yields the Unicode scalar values of the string (std contract; view of Str is Seq<char>)",
             "slyce::Slice::apply == Python slicing beyond the bounded harness (len<=3, |start|,|stop|<=5, |step|<=4)",
-            "Slicing::exec / exec_index (closures, collect) are outside both verifiers: bounded probes only",
+            "Slicing::exec_index (closure capturing &mut Interpreter, Option::map/transpose) is outside Verus: its contract "
+            "(evaluate the bound if present, unwrap the int, apply to_bound) is read off the body and assumed; "
+            "Slicing::create / recreate (pest pairs, closures) are only probed",
+            "std contracts in verus/slicing.rs: Iterator::cloned / collect keep the elements in order; str::chars().collect()",
         ]),
     "C12": dict(
         probes=["control", "control_random"],
